@@ -168,3 +168,35 @@ Proof.
   intros Hok. unfold loopN, encode, enc_body. f_equal.
   pose proof (loop_runs f [] [] Hok) as H. cbn [app rev length] in H. destruct E_nil as [He Hp]. rewrite He, Hp in H. exact H.
 Qed.
+
+(* ---------- what the encoder emits are bytes ---------- *)
+Lemma Forall_firstn' {A} (P : A -> Prop) : forall n l, Forall P l -> Forall P (firstn n l).
+Proof. induction n as [|n IH]; intros [|x l] H; cbn [firstn]; try constructor; inversion H; subst; auto. Qed.
+Lemma Forall_skipn' {A} (P : A -> Prop) : forall n l, Forall P l -> Forall P (skipn n l).
+Proof. induction n as [|n IH]; intros [|x l] H; cbn [skipn]; try assumption; inversion H; subst; auto. Qed.
+Lemma enc_run_bytes : forall fuel run, Forall (fun b => b < 256) run -> Forall (fun b => b < 256) (enc_run fuel run).
+Proof.
+  induction fuel as [|fu IH]; intros run Hrun; cbn [enc_run]; [repeat constructor|].
+  destruct (Nat.leb_spec 254 (length run)) as [Hge|Hlt].
+  - constructor; [reflexivity|]. apply Forall_app. split; [apply Forall_firstn'|apply IH, Forall_skipn']; exact Hrun.
+  - constructor; [lia|exact Hrun].
+Qed.
+
+Lemma runs_in : forall l cur r x, In r (runs cur l) -> In x r -> In x (rev cur) \/ In x l.
+Proof.
+  induction l as [|b l IH]; intros cur r x Hr Hx; cbn [runs] in Hr.
+  - destruct Hr as [<-|[]]. left. exact Hx.
+  - destruct (b =? 0).
+    + destruct Hr as [<-|Hr]; [left; exact Hx|]. destruct (IH [] r x Hr Hx) as [[]|H]. right. right. exact H.
+    + destruct (IH (b :: cur) r x Hr Hx) as [H|H]; [|right; right; exact H].
+      cbn [rev] in H. apply in_app_or in H. destruct H as [H|[<-|[]]]; [left; exact H|right; left; reflexivity].
+Qed.
+
+Lemma encode_bytes f : Forall (fun b => b < 256) f -> Forall (fun b => b < 256) (encode f).
+Proof.
+  intros Hok. unfold encode, enc_body. apply Forall_app. split; [|repeat constructor].
+  apply Forall_forall. intros x Hx. apply in_flat_map in Hx. destruct Hx as [r [Hr Hx]].
+  assert (Hrb : Forall (fun b => b < 256) r).
+  { apply Forall_forall. intros y Hy. destruct (runs_in f [] r y Hr Hy) as [[]|H]. exact (proj1 (Forall_forall _ _) Hok y H). }
+  exact (proj1 (Forall_forall _ _) (enc_run_bytes _ r Hrb) x Hx).
+Qed.
